@@ -144,6 +144,7 @@ func runC13(r *Result, d *drv.Driver, tier string, seed int64, replay string) {
 		"random message values with half of their dynamic positions replaced by junk; every kind of Decode target (nil, non-pointer, nil pointer, pointers to int/pointer/interface/map/slice, structs with bad annotations, a dynamic field without DynamicDispatch, a DynamicDispatch whose BuildFieldValue returns nil / a struct by value / *int32 / time.Duration / a badly annotated struct); structs with annotated embedded fields of unexported types (struct, pointer, aliases of time.Time / time.Duration / []byte / Enum, interface) as values and as targets of a stream that contains the annotated item. " +
 		"Each call runs under recover with a recording writer: outcome class and bytes compared with the model; a failed Encode must have written nothing. distinct = distinct rendered input; non-trivial = input exercises an error or junk path"
 	c13Embedded(r)
+	c13Unsupported(r)
 	var cases []interface{}
 	for _, mk := range badValues {
 		cases = append(cases, atPositions(mk())...)
@@ -361,6 +362,93 @@ type TEmbedBlob struct {
 	kmip.Tag `kmip:"RESPONSE_HEADER"`
 	c13blob  `kmip:"TIME_STAMP"`
 	c13enum  `kmip:"BATCH_COUNT"`
+}
+
+// structs with fields of Go types the codec has no TTLV type for, under every kind of annotation - a real tag name, the
+// any-tag marker "-", with and without the options required / skip
+type TUnsMapAny struct {
+	kmip.Tag `kmip:"REQUEST_HEADER"`
+	A        int32          `kmip:"BATCH_COUNT"`
+	M        map[string]int `kmip:"-"`
+}
+type TUnsFloatAny struct {
+	kmip.Tag `kmip:"REQUEST_HEADER"`
+	F        float64 `kmip:"-"`
+	A        int32   `kmip:"BATCH_COUNT"`
+}
+type TUnsPtrAnyReq struct {
+	kmip.Tag `kmip:"REQUEST_HEADER"`
+	P        *int32 `kmip:"-,required"`
+}
+type TUnsSliceAny struct {
+	kmip.Tag `kmip:"REQUEST_HEADER"`
+	S        []float64 `kmip:"-"`
+}
+type TUnsMapNamed struct {
+	kmip.Tag `kmip:"REQUEST_HEADER"`
+	M        map[string]int `kmip:"BATCH_COUNT"`
+}
+type TUnsChanSkip struct {
+	kmip.Tag `kmip:"REQUEST_HEADER"`
+	C        chan int `kmip:"-,skip"`
+	A        int32    `kmip:"BATCH_COUNT"`
+}
+
+// c13Unsupported: each of them as Encode value (zero and populated) and as Decode target of streams that carry an item where
+// the odd field sits: an error or an orderly result, never a panic
+func c13Unsupported(r *Result) {
+	i32 := []byte{0x42, 0x00, 0x0d, 2, 0, 0, 0, 4, 0, 0, 0, 7, 0, 0, 0, 0}
+	txt := []byte{0x42, 0x00, 0x99, 7, 0, 0, 0, 3, 'a', 'b', 'c', 0, 0, 0, 0, 0}
+	wrap := func(items ...[]byte) []byte {
+		var body []byte
+		for _, it := range items {
+			body = append(body, it...)
+		}
+		return append([]byte{0x42, 0x00, 0x77, 1, 0, 0, 0, byte(len(body))}, body...)
+	}
+	streams := [][]byte{wrap(i32), wrap(txt), wrap(i32, txt), wrap(txt, i32), wrap(i32, i32), wrap()}
+	five := int32(5)
+	values := []interface{}{TUnsMapAny{}, TUnsMapAny{A: 1, M: map[string]int{"a": 1}}, TUnsFloatAny{F: 1.5, A: 1}, TUnsPtrAnyReq{}, TUnsPtrAnyReq{P: &five},
+		TUnsSliceAny{S: []float64{1}}, TUnsMapNamed{M: map[string]int{"a": 1}}, TUnsChanSkip{C: make(chan int), A: 1}}
+	for _, v := range values {
+		for _, byPtr := range []bool{false, true} {
+			key := fmt.Sprintf("Encode of %T (pointer=%v) %+v", v, byPtr, v)
+			crumb("C13 " + key)
+			r.eval(key, true)
+			x := v
+			if byPtr {
+				p := reflect.New(reflect.TypeOf(v))
+				p.Elem().Set(reflect.ValueOf(v))
+				x = p.Interface()
+			}
+			out, written, _ := realEncode(x)
+			r.Stats["unsupported-field-type-probes"]++
+			if strings.HasPrefix(out, "panic") {
+				r.find(Finding{Kind: "violation", What: "Encode panicked on a struct with a field of an unsupported Go type", Input: key, Expect: "bytes or an error", Actual: out})
+			} else if !strings.HasPrefix(out, "ok") && len(written) != 0 {
+				r.find(Finding{Kind: "violation", What: "a failed Encode wrote bytes", Input: key, Actual: fmt.Sprintf("%s; wrote %x", out, written)})
+			}
+		}
+		for si, stream := range streams {
+			key := fmt.Sprintf("Decode into *%T, stream %d (%x)", v, si, stream)
+			crumb("C13 " + key)
+			r.eval(key, true)
+			res := ""
+			func() {
+				defer func() {
+					if p := recover(); p != nil {
+						res = fmt.Sprintf("panic: %v", p)
+					}
+				}()
+				err := kmip.NewDecoder(bytes.NewReader(stream)).Decode(reflect.New(reflect.TypeOf(v)).Interface())
+				res = classifyErr(err)
+			}()
+			r.Stats["unsupported-field-type-probes"]++
+			if strings.HasPrefix(res, "panic") {
+				r.find(Finding{Kind: "violation", What: "Decode panicked on a target with a field of an unsupported Go type", Input: key, Expect: "nil or an error", Actual: res})
+			}
+		}
+	}
 }
 
 func c13Embedded(r *Result) {
